@@ -163,6 +163,8 @@ def tables : String :=
     ++ " || " ++ " ".intercalate gs ++ " || " ++ " ".intercalate rs
     ++ " || " ++ " ".intercalate (derivedStores.map (fun s =>
       s!"{s.func}:{s.attr}:{match s.guard with | .always => "always" | .onlyIfUnset => "onlyIfUnset"}:ok={derivedOK s}"))
+    ++ " || " ++ " ".intercalate (getterStores.map (fun s =>
+      s!"{s.func}:{s.attr}:used={showCsv s.used}:keyed={showCsv s.keyedOn}:ok={getterOK s}"))
 
 /-! `ret <site> call;write 0 9;call`: per call `value@buffer` -/
 def retRun (site : Nat) (toks : List String) : String :=
